@@ -1,7 +1,7 @@
 from einx._src.adapter.einx_from_namedtensor import _parse_op
 from einx._src.adapter.einx_from_namedtensor import Invocation
 from einx._src.adapter.einx_from_namedtensor import solve as _solve2
-from einx._src.frontend.errors import SyntaxError
+from einx._src.frontend.errors import SyntaxError, RankError
 from einx._src.namedtensor import ExpressionIndicator
 import einx._src.namedtensor.stage3 as stage3
 from collections import defaultdict
@@ -39,7 +39,7 @@ def _exprs_to_axes(exprs):
     return values2
 
 
-def _solve(description, tensor_shapes, parameters, reraise, cse):
+def _solve(description, tensor_shapes, parameters, reraise, cse, require_expanded_ellipses=False):
     invocation = Invocation(
         description,
         name="operation",
@@ -57,6 +57,15 @@ def _solve(description, tensor_shapes, parameters, reraise, cse):
     try:
         exprs_in, exprs_out = _parse_op(f"{description} ->", el_op=None, invocation=invocation, allow_concat=True)
         exprs_in, exprs_out = _solve2(exprs_in, exprs_out, tensor_shapes, invocation, parameters, cse_concat=True, cse=cse)
+        if require_expanded_ellipses and any(
+            isinstance(expr, stage3.Axis) and expr.name.startswith("UnexpandedEllipsis(") for root in exprs_in for expr in root.nodes()
+        ):
+            # An ellipsis inside a flattened axis may stay unexpanded when only shapes are needed, but its axes cannot be reported
+            raise RankError(
+                invocation,
+                message="Failed to uniquely determine the expansion of ellipses in the expression. Please provide more constraints.\n%EXPR%",
+                pos=invocation.indicator.get_pos_for_literal("..."),
+            )
     except Exception:
         if reraise:
             raise
@@ -121,7 +130,7 @@ def solve_axes(description: str, *tensors: Tensor, **parameters: npt.ArrayLike) 
         >>> einx.solve_axes("a..., c a...", x, None, c=3)
         {'a': array([3, 4]), 'c': 3}
     """
-    exprs = _solve(description, [_get_shape(tensor) for tensor in tensors], parameters, reraise=True, cse=False)
+    exprs = _solve(description, [_get_shape(tensor) for tensor in tensors], parameters, reraise=True, cse=False, require_expanded_ellipses=True)
     return _exprs_to_axes(exprs)
 
 
